@@ -3079,3 +3079,20 @@ def c07_z_then_wide_cases(seed, tier):
 _extend("C07", c07_z_then_wide_cases, "plus rows that release one input (Z) and drive later ones with numbers that do not fit, in every signal order")
 _extend("C18", c14_loop_shadow_cases, "plus loops whose counter / n / body lets are named like an output pin (vars() after the loop)")
 _extend("C03", (lambda seed, tier: degenerate_list_cases("c03")), "plus degenerate signal lists (only outputs, only inputs, one signal)")
+
+
+def c01_unary_bound_cases(seed, tier):
+    """loop bounds, repeat counts, while conditions and bits values that are chains of unary operators over values outside {0,1}"""
+    cases = []
+    sigs = [{"name": "A", "typ": "I", "bits": 16, "default": "0"}, {"name": "Q", "typ": "O", "bits": 8, "default": "-"}]
+    for k, (kv, e) in enumerate([(6, "!!k"), (6, "--k"), (6, "~~k"), (0, "!k"), (5, "!!!k+2"), (3, "-~k"), (2, "~-k+4"), (7, "!!k+!!k"), (-3, "--k+5"), (4, "!!(k-4)+1")]):
+        prog = ["let k = %s;" % (str(kv) if kv >= 0 else "0-%d" % -kv), "loop(i,%s)" % e, "(i) X", "end loop", "repeat(%s) (n+10) X" % e, "let w = 0;", "while((w < %s) & !!k | 0)" % e,
+                "(w+20) X", "let w = w + 1;", "let k = k * !!k;", "end while", "bits(2,%s) bits(14,%s) X" % (e, e), "(%s) X" % e]
+        for cont in (0, 1):
+            cases.append({"id": "c01-unarybound-%d-%d" % (k, cont), "kind": "run", "src": "\n".join(["A Q"] + prog) + "\n", "sigs": sigs, "layout": [1], "table": [["1"]],
+                          "echo": 0, "wdefault": k % 2, "faults": [], "max": 80, "seed": 3 + k, "cont": cont})
+    return cases
+
+
+for _p in ("C01", "C18"):
+    _extend(_p, c01_unary_bound_cases, "plus loop bounds / repeat counts / while conditions / bits values that are chains of unary operators over values outside {0,1}")
